@@ -12,6 +12,7 @@ import (
 )
 
 var table = map[string]func(tier string) int{
+	"C01": checks.C01,
 	"C02": checks.C02,
 	"C03": checks.C03,
 	"C04": checks.C04,
